@@ -70,8 +70,7 @@ def bindingValid (k : SvcName × Addr) (b : Binding) : Bool :=
 
 /-- `RequestContext.Validate` and the two state requirements of `ValidateGenesis` -/
 def ctxValid (x : Ctx) : Bool :=
-  validName x.svc && !x.provs.isEmpty && decide (x.provs.length ≤ 10) && x.provs.Nodup && x.cons ≠ "" && decide (0 < x.cap)
-  && x.state = .paused && x.bstate = .completed
+  ctxFieldsOK x && x.state = .paused && x.bstate = .completed
 
 /-- a withdraw-address key is written as bech32 text and must parse back: 20 bytes (40 hex digits here) -/
 def wdKeyValid (owner : Addr) : Bool := owner.length = 40
